@@ -501,9 +501,23 @@ def oracleC18 (op : String) (a : Nat → Option Str) (impl : String) : String ×
         if impl == exp then ("ok", if s.count '-' ≥ 2 then "nt" else "") else (s!"fail:summary-split={exp}", "")
       else ("na", "empty-part")
     | none => ("na", "no-dash")
-  | "dewey.match", some _ =>
-    -- generated as  base>=0  against a name with that base: the matcher's own split must agree
-    (if impl == "1" then ("ok", "nt") else ("fail:matcher-split-disagrees", "nt"))
+  | "dewey.match", some p =>
+    -- generated as  <prefix of the name up to one of its dashes> <op> <bound>: the matcher must
+    -- split the name at its LAST '-' like PkgName does — a pattern whose base is not the
+    -- name's PKGBASE never matches, and  PKGBASE>=0  always does
+    match a 1 with
+    | some name =>
+      let pb := p.takeWhile fun c => c != '<' && c != '>'
+      let rest := p.drop pb.length
+      match S.splitLastDash name with
+      | some (base, _) =>
+        if pb == base then
+          (if rest == ['>', '=', '0'] then
+            (if impl == "1" then ("ok", "nt") else ("fail:matcher-split-disagrees", "nt"))
+           else ("na", "bound-decides"))
+        else (if impl == "0" then ("ok", "nt") else ("fail:matched-with-a-base-that-is-not-PKGBASE", "nt"))
+      | none => if impl == "0" then ("ok", "") else ("fail:matched-a-name-without-version", "")
+    | none => ("na", "")
   | _, _ => ("na", "")
 
 /-- the accepted PKGPATH forms, stated on '/'-separated segments -/
@@ -567,7 +581,9 @@ def handler (prop : String) : Handler := fun op args impl =>
   | none => none
   | some m =>
     let (o, t) := match prop with
-      | "C01" => oracleC01 op a impl m
+      | "C01" =>
+        -- "also through best_match": the two-candidate selection is judged by the C06 oracle
+        if op == "pattern.best" then oracleC06 op args a impl m else oracleC01 op a impl m
       | "C02" => oracleC02 op a impl
       | "C03" => oracleC03 op a impl
       | "C04" => oracleC04 op a impl
